@@ -70,6 +70,13 @@ TRUSTED_EXTRA = [
     "pandas DataFrame.from_records NaN coercion, Series division (x/0 = inf, 0/0 = NaN), fillna, boolean masks, "
     "label alignment of Series assignment, Series.median / np.nanmedian",
     "Model/Ranges.lean iterSlices = skgenome.intersect.iter_slices (tied by C07)",
+    "harness/dectrans.py: the reading of the if / elif / return structure of vcfio._extract_genotype, _get_alt_count, "
+    "_safesum (rules at the top of the file) and the vocabulary of harness/extractors/vcf_decisions.py (source text of each "
+    "condition / value -> atom name; the Lean definitions Src.hasAD, adIsTuple, adGiven, adHasSecond, severalAlleles, "
+    "onlyAlleleIsRef, depthFrom, altFrom say what each atom means on the model's data)",
+    "harness/extractors/vcf_consts.py: which argparse declarations belong to which command (parser variable with "
+    "set_defaults(func=_cmd_x) and its argument groups) and the reading of a command's load_het_snps call as positional "
+    "binding to the callee's parameter list",
 ]
 
 ERRS = ("IndexError", "KeyError", "AssertionError", "ValueError")
